@@ -273,21 +273,62 @@ Proof.
         destruct (next_adjacent rest (nend q + run_bytes (nrun q) + size)) as [[r rest']|] eqn:Eadj.
         -- destruct (adjacent_some _ _ _ _ _ _ _ _ Htodo' Hch Eadj) as (-> & -> & Hor & Hcr & Hrr & Hrest).
            destruct Hcr as (Hr1 & Hr2 & Hr3).
-           cbn [pos_objs app]. rewrite nodes_objs_cons.
-           unfold surv. cbn [filter snd]. fold (surv (pos_objs (nend r) (rev (nrun r)) ++ nodes_objs rest')).
-           cbn [dead_bytes fold_right snd fst].
-           fold (dead_bytes (pos_objs (nend r) (rev (nrun r)) ++ nodes_objs rest')).
            assert (Hpe : nend q + run_bytes (nrun q) + (size + nsize r) = nend r)
              by (rewrite (nend_chunk r) by (unfold chunk; auto); lia).
-           rewrite <- Hpe.
-           eapply post_consq with (s := Node (nend q + run_bytes (nrun q)) (size + nsize r) [])
-                                  (mf := Z.max mf (size + nsize r)) (sf0 := sf); try assumption.
-           ++ unfold chunk. cbn [noff nsize]. split; [lia|]. split; [lia|]. apply Z.divide_add_r; assumption.
-           ++ reflexivity.
-           ++ reflexivity.
-           ++ lia.
-           ++ replace (sf + (size + dead_bytes (pos_objs (nend q + run_bytes (nrun q) + (size + nsize r)) (rev (nrun r)) ++ nodes_objs rest')))
-                with (sf + size + dead_bytes (pos_objs (nend q + run_bytes (nrun q) + (size + nsize r)) (rev (nrun r)) ++ nodes_objs rest')) by lia.
-              admit.
-        -- admit.
-Abort.
+           assert (Hpost : sweep_post (Node (nend q + run_bytes (nrun q)) (size + nsize r) [])
+                                      (pos_objs (nend q + run_bytes (nrun q) + (size + nsize r)) (rev (nrun r)) ++ nodes_objs rest')
+                                      (Z.max mf (size + nsize r)) (sf + size) e
+                                      (sweep_loop fuel (Node (nend q + run_bytes (nrun q)) (size + nsize r) []) (rev (nrun r)) rest'
+                                                  (nend q + run_bytes (nrun q) + (size + nsize r))
+                                                  (Z.max mf (size + nsize r)) (sf + size))).
+           { apply IH.
+             - cbn [length nodes_fuel] in Hfuel. rewrite rev_length. lia.
+             - right. unfold chunk. cbn [noff nsize]. split; [lia|]. split; [lia|]. apply Z.divide_add_r; assumption.
+             - unfold nend. cbn [noff nsize nrun].
+               assert (En : (nend q + run_bytes (nrun q) =? 0) = false) by (apply Z.eqb_neq; pose proof hdr_pos; lia).
+               unfold nend in En. rewrite En. unfold run_bytes at 3. cbn [fold_right]. unfold nend. lia.
+             - constructor.
+             - constructor.
+             - apply run_ok_rev. assumption.
+             - rewrite run_bytes_rev.
+               replace (nend q + run_bytes (nrun q) + (size + nsize r) + run_bytes (nrun r))
+                 with (noff r + nsize r + run_bytes (nrun r)) by lia.
+               eapply tchain_weaken; [|exact Hrest]. intros Hn. left. intros Hr. apply Hn.
+               apply (f_equal (@rev obj)) in Hr. rewrite rev_involutive in Hr. exact Hr. }
+           destruct (post_consq q _ _ mf _ sf _ e _ Hq Hrq Huq
+                       ltac:(unfold chunk; cbn [noff nsize]; split; [lia|split; [lia|apply Z.divide_add_r; assumption]])
+                       eq_refl eq_refl Hcoal ltac:(lia) Hpost)
+             as (q' & l' & mf' & sf' & Hres & Ho' & Hs' & Hc' & Hr' & Hch' & Hum' & Hobjs & Hsf & Hmf).
+           exists q', l', mf', sf'. split; [exact Hres|]. split; [exact Ho'|]. split; [exact Hs'|]. split; [exact Hc'|].
+           split; [assumption|]. split; [assumption|]. split; [assumption|].
+           split; [|split; [|lia]].
+           ++ rewrite Hobjs. cbn [pos_objs app]. rewrite nodes_objs_cons.
+              unfold surv at 2. cbn [filter snd map]. fold (surv (pos_objs (nend r) (rev (nrun r)) ++ nodes_objs rest')).
+              rewrite Hpe. reflexivity.
+           ++ rewrite Hsf. cbn [pos_objs app]. rewrite nodes_objs_cons.
+              cbn [dead_bytes fold_right snd fst]. unfold dead_bytes. rewrite Hpe. lia.
+        -- assert (Hpost : sweep_post (Node (nend q + run_bytes (nrun q)) size [])
+                                      (pos_objs (nend q + run_bytes (nrun q) + size) todo' ++ nodes_objs rest)
+                                      (Z.max mf size) (sf + size) e
+                                      (sweep_loop fuel (Node (nend q + run_bytes (nrun q)) size []) todo' rest
+                                                  (nend q + run_bytes (nrun q) + size) (Z.max mf size) (sf + size))).
+           { apply IH.
+             - cbn [length] in Hfuel. lia.
+             - right. unfold chunk. cbn [noff nsize]. split; [lia|]. split; [lia|]. assumption.
+             - unfold nend. cbn [noff nsize nrun].
+               assert (En : (nend q + run_bytes (nrun q) =? 0) = false) by (apply Z.eqb_neq; pose proof hdr_pos; lia).
+               unfold nend in En. rewrite En. unfold run_bytes at 3. cbn [fold_right]. unfold nend. lia.
+             - constructor.
+             - constructor.
+             - assumption.
+             - eapply adjacent_none; eassumption. }
+           destruct (post_consq q _ _ mf _ sf _ e _ Hq Hrq Huq
+                       ltac:(unfold chunk; cbn [noff nsize]; split; [lia|split; [lia|assumption]])
+                       eq_refl eq_refl Hcoal ltac:(lia) Hpost)
+             as (q' & l' & mf' & sf' & Hres & Ho' & Hs' & Hc' & Hr' & Hch' & Hum' & Hobjs & Hsf & Hmf).
+           exists q', l', mf', sf'. split; [exact Hres|]. split; [exact Ho'|]. split; [exact Hs'|]. split; [exact Hc'|].
+           split; [assumption|]. split; [assumption|]. split; [assumption|].
+           split; [|split; [|lia]].
+           ++ rewrite Hobjs. unfold surv at 2. cbn [filter snd map]. reflexivity.
+           ++ rewrite Hsf. cbn [dead_bytes fold_right snd fst]. unfold dead_bytes. lia.
+Qed.
